@@ -35,6 +35,7 @@ where pseudo-parent and pseudo-children links are added to the tree.
  
  This model is typically used for the dpop algorithm.
 """
+import sys
 from typing import Dict
 from typing import Iterable
 
@@ -527,13 +528,20 @@ def build_computation_graph(
         variables = list(variables)
         constraints = list(constraints)
 
-    roots = []
-    while len(variables) != 0:
-        root = _generate_dfs_tree(variables, constraints)
-        roots.append(root)
-        # Remove variables that are part of the tree and build another tree
-        # until there is no variable left.
-        for node in _visit_tree(root):
-            variables.remove(node.variable)
+    # The DFS tree is built and visited recursively, with a depth proportional to
+    # the depth of the tree: make sure long chains fit in the recursion limit.
+    recursion_limit = sys.getrecursionlimit()
+    sys.setrecursionlimit(max(recursion_limit, 3 * len(variables) + 200))
+    try:
+        roots = []
+        while len(variables) != 0:
+            root = _generate_dfs_tree(variables, constraints)
+            roots.append(root)
+            # Remove variables that are part of the tree and build another tree
+            # until there is no variable left.
+            for node in _visit_tree(root):
+                variables.remove(node.variable)
 
-    return ComputationPseudoTree(roots)
+        return ComputationPseudoTree(roots)
+    finally:
+        sys.setrecursionlimit(recursion_limit)
